@@ -283,6 +283,73 @@ mod verif_driver_reduce {
         println!("VERIF-CASES fn=reduce n={n}");
     }
 
+    // ---- C14 (reduce stage, every operand): the built-in operations fold, or refuse, EVERY pair of constant operands a
+    // client-sent IR or an applied argument can hold - Ok or Err, never a panic.
+    // BOUND: 6 operations x 38 operand shapes (squared for the binary ones): absent, integers incl. i128::MIN / MAX, text,
+    // bytes, addresses, empty and non-empty lists / maps / tuples / constructors, UTxO references and sets (empty too),
+    // asset bundles (empty, coin, tokens, absent policy or name, an amount that is a constant but not a number).
+    #[test]
+    fn builtin_ops_are_total_on_every_shape() {
+        use crate::model::assets::CanonicalAssets;
+        use crate::model::core::{Utxo, UtxoRef};
+        let mut n = 0;
+        let asset = |policy: Expression, name: Expression, amount: Expression| AssetExpr { policy, asset_name: name, amount };
+        let b = |l: usize| Expression::Bytes(vec![0xab; l]);
+        let utxo = |k: u8| Utxo { r#ref: UtxoRef { txid: vec![k; 32], index: 0 }, address: vec![0x61; 29], datum: Some(num(k as i128)), script: None, assets: CanonicalAssets::from_naked_amount(5) };
+        let mut shapes: Vec<(String, Expression)> = vec![("None".into(), Expression::None)];
+        for v in [0i128, 1, -1, 2, i128::MAX, i128::MIN] { shapes.push((format!("Number({v})"), num(v))); }
+        shapes.push(("Bool".into(), Expression::Bool(false)));
+        for t in ["", "abc", "\u{e9}"] { shapes.push((format!("String({t:?})"), Expression::String(t.to_string()))); }
+        for l in [0usize, 1, 28] { shapes.push((format!("Bytes({l})"), b(l))); }
+        shapes.push(("Address".into(), Expression::Address(vec![0x61; 29])));
+        shapes.push(("Hash".into(), Expression::Hash(vec![7; 28])));
+        shapes.push(("List([])".into(), Expression::List(vec![])));
+        shapes.push(("List([1, 2])".into(), Expression::List(vec![num(1), num(2)])));
+        shapes.push(("Map([])".into(), Expression::Map(vec![])));
+        shapes.push(("Map([(1, 2)])".into(), Expression::Map(vec![(num(1), num(2))])));
+        shapes.push(("Tuple".into(), Expression::Tuple(Box::new((num(1), b(1))))));
+        shapes.push(("Struct(no fields)".into(), Expression::Struct(StructExpr { constructor: 0, fields: vec![] })));
+        shapes.push(("Struct(two fields)".into(), Expression::Struct(StructExpr { constructor: 1, fields: vec![num(1), b(2)] })));
+        shapes.push(("UtxoRefs([])".into(), Expression::UtxoRefs(vec![])));
+        shapes.push(("UtxoRefs([x])".into(), Expression::UtxoRefs(vec![UtxoRef { txid: vec![1; 32], index: 0 }])));
+        shapes.push(("UtxoSet({})".into(), Expression::UtxoSet(HashSet::new())));
+        shapes.push(("UtxoSet({a, b})".into(), Expression::UtxoSet(HashSet::from([utxo(1), utxo(2)]))));
+        shapes.push(("Assets([])".into(), Expression::Assets(vec![])));
+        shapes.push(("Assets([coin 5])".into(), Expression::Assets(vec![asset(Expression::None, Expression::None, num(5))])));
+        shapes.push(("Assets([coin -5])".into(), Expression::Assets(vec![asset(Expression::None, Expression::None, num(-5))])));
+        shapes.push(("Assets([token 3])".into(), Expression::Assets(vec![asset(b(28), b(3), num(3))])));
+        shapes.push(("Assets([coin 1, token 2])".into(), Expression::Assets(vec![asset(Expression::None, Expression::None, num(1)), asset(b(28), b(3), num(2))])));
+        shapes.push(("Assets([name-only 3])".into(), Expression::Assets(vec![asset(Expression::None, b(3), num(3))])));
+        shapes.push(("Assets([policy-only 3])".into(), Expression::Assets(vec![asset(b(28), Expression::None, num(3))])));
+        shapes.push(("Assets([text policy and name])".into(), Expression::Assets(vec![asset(Expression::String("p".into()), Expression::String("n".into()), num(3))])));
+        shapes.push(("Assets([amount is a bool])".into(), Expression::Assets(vec![asset(b(28), b(3), Expression::Bool(true))])));
+        shapes.push(("Assets([amount is absent])".into(), Expression::Assets(vec![asset(b(28), b(3), Expression::None)])));
+        shapes.push(("Assets([policy is a number])".into(), Expression::Assets(vec![asset(num(1), b(3), num(3))])));
+        let odd_amount = |d: &str| d.contains("amount is a") ;
+        let mut run = |desc: String, known_class: bool, e: Expression| {
+            if let Err(p) = quiet(move || e.reduce()) {
+                // an asset entry whose amount is a constant that is not a number is the recorded defect (`unreachable!` in
+                // From<AssetExpr> for CanonicalAssets): same class label as the recorded finding
+                let class = if known_class && p.contains("amount expected to be Number") { "assets-amount-not-a-number" } else { "operand-shape" };
+                witness("c14_tir/BuiltInOp::reduce#reachable-panic", "reduce", format!("{desc} class={class}"), format!("panic:{}", p.chars().take(100).collect::<String>()), "Ok or Err");
+            }
+        };
+        for (dx, x) in &shapes {
+            n += 2;
+            run(format!("negate {dx}"), odd_amount(dx), Expression::EvalBuiltIn(Box::new(BuiltInOp::Negate(x.clone()))));
+            run(format!("no-op {dx}"), odd_amount(dx), Expression::EvalBuiltIn(Box::new(BuiltInOp::NoOp(x.clone()))));
+            for (dy, y) in &shapes {
+                n += 4;
+                let k = odd_amount(dx) || odd_amount(dy);
+                run(format!("{dx} + {dy}"), k, Expression::EvalBuiltIn(Box::new(BuiltInOp::Add(x.clone(), y.clone()))));
+                run(format!("{dx} - {dy}"), k, Expression::EvalBuiltIn(Box::new(BuiltInOp::Sub(x.clone(), y.clone()))));
+                run(format!("concat({dx}, {dy})"), k, Expression::EvalBuiltIn(Box::new(BuiltInOp::Concat(x.clone(), y.clone()))));
+                run(format!("{dx} [ {dy} ]"), k, Expression::EvalBuiltIn(Box::new(BuiltInOp::Property(x.clone(), y.clone()))));
+            }
+        }
+        println!("VERIF-CASES fn=reduce n={n}");
+    }
+
     // ---- C07 / C06: `reduce` reaches every position (a foldable operation is folded wherever it sits), and a template
     // without parameters, queries, fee markers and pending operations IS constant (so that it can be compiled)
     #[test]
